@@ -1,6 +1,7 @@
 package util
 
 import (
+	"io"
 	"os"
 	"path/filepath"
 	"sort"
@@ -72,13 +73,48 @@ func UnlinkFileAt(dir *os.File, filename string) error {
 	return unix.Unlinkat(int(dir.Fd()), filename, 0)
 }
 
+// tempFileSuffix is appended to the names of files still being written by WriteFileAt
+const tempFileSuffix = ".tmp"
+
 // WriteFileAt writes to a new file in given directory
+//
+// The data is written to a temporary file and renamed to the final name only after everything has been written, so
+// the file either has the complete contents or does not exist, even if the disk gets full or the process is killed
+// midway (an incomplete temporary file may be left behind in the latter case).
 func WriteFileAt(dir *os.File, filename string, data []byte, perm os.FileMode) error {
-	fd, oerr := unix.Openat(int(dir.Fd()), filename, unix.O_WRONLY|unix.O_CREAT|unix.O_TRUNC, uint32(perm))
+	dirFd := int(dir.Fd())
+	tempname := filename + tempFileSuffix
+	fd, oerr := unix.Openat(dirFd, tempname, unix.O_WRONLY|unix.O_CREAT|unix.O_TRUNC, uint32(perm))
 	if oerr != nil {
 		return oerr
 	}
-	_, werr := unix.Write(fd, data)
-	unix.Close(fd)
+	werr := writeFully(fd, data)
+	if cerr := unix.Close(fd); werr == nil {
+		werr = cerr
+	}
+	if werr == nil {
+		werr = unix.Renameat(dirFd, tempname, dirFd, filename)
+	}
+	if werr != nil {
+		_ = unix.Unlinkat(dirFd, tempname, 0)
+	}
 	return werr
+}
+
+// writeFully writes all of data, continuing after short writes
+func writeFully(fd int, data []byte) error {
+	for len(data) > 0 {
+		n, werr := unix.Write(fd, data)
+		if werr != nil {
+			if werr == unix.EINTR {
+				continue
+			}
+			return werr
+		}
+		if n <= 0 {
+			return io.ErrShortWrite
+		}
+		data = data[n:]
+	}
+	return nil
 }
